@@ -11,6 +11,7 @@
 #include "ccl/semantic/RSForm.h"
 #include "ccl/tools/EntityGenerator.h"
 #include "ccl/tools/JSON.h"
+#include "ccl/rslang/SyntaxTree.h"
 
 #include <set>
 
@@ -266,5 +267,64 @@ struct Executor {
 inline std::string toJson(const RSForm& f) {
   return nlohmann::ordered_json(f).dump(1, ' ', false, nlohmann::ordered_json::error_handler_t::replace);
 }
+
+
+// ---- comparison of an incrementally maintained schema with one rebuilt from the same content ----------------------
+#define SH_CHECK(cond, oracle, msg) do { if (!(cond)) return pbt::fail(oracle, msg); } while (0)
+struct View { std::string status, type, args, vclass, tree, inputs, termInputs, defInputs, term, text; };
+
+inline std::string typeStr(const ccl::semantic::ParsingInfo& p) {
+  if (!p.exprType.has_value()) return "-";
+  if (std::holds_alternative<ccl::rslang::LogicT>(*p.exprType)) return "LOGIC";
+  return std::get<ccl::rslang::Typification>(*p.exprType).ToString();
+}
+inline View viewOf(const RSForm& f, EntityUID uid) {
+  View v;
+  const auto& p = f.GetParse(uid);
+  v.status = p.status == ccl::semantic::ParsingStatus::VERIFIED ? "verified" : p.status == ccl::semantic::ParsingStatus::INCORRECT ? "incorrect" : "unknown";
+  v.type = typeStr(p);
+  if (p.arguments.has_value()) for (auto& a : *p.arguments) v.args += a.name + ":" + a.type.ToString() + ",";
+  v.vclass = std::to_string(static_cast<int>(p.valueClass));
+  v.tree = p.ast ? ccl::rslang::AST2String::Apply(*p.ast) : std::string("-");
+  std::set<std::string> in; for (auto u : f.RSLang().Graph().InputsFor(uid)) in.insert(f.Contains(u) ? f.GetRS(u).alias : "?" + std::to_string(u));
+  for (auto& a : in) v.inputs += a + ",";
+  auto names = [&](const ccl::graph::CGraph::UnorderedItems& us) { std::set<std::string> n; for (auto u : us) n.insert(f.Contains(u) ? f.GetRS(u).alias : "?" + std::to_string(u)); std::string o; for (auto& a : n) o += a + ","; return o; };
+  v.termInputs = names(f.Texts().TermGraph().InputsFor(uid));
+  v.defInputs = names(f.Texts().DefGraph().InputsFor(uid));
+  v.term = f.GetText(uid).term.Nominal();
+  v.text = f.GetText(uid).definition.Str();
+  return v;
+}
+
+inline pbt::Verdict compareWith(const RSForm& inc, const RSForm& fresh, const std::string& how, const std::string& after, bool textsComparable) {
+  std::vector<EntityUID> li, lf;
+  for (auto u : inc.List()) li.push_back(u);
+  for (auto u : fresh.List()) lf.push_back(u);
+  SH_CHECK(li == lf, std::string("rebuild-order-") + how, "a schema rebuilt (" + how + ") from the same content has another list after " + after);
+  for (auto uid : li) {
+    const auto& rs = inc.GetRS(uid);
+    SH_CHECK(fresh.Contains(uid) && fresh.GetRS(uid).alias == rs.alias && fresh.GetRS(uid).definition == rs.definition && fresh.GetRS(uid).type == rs.type, std::string("rebuild-content-") + how,
+          "rebuilt (" + how + ") schema differs in content at " + rs.alias + " after " + after);
+    const View a = viewOf(inc, uid), b = viewOf(fresh, uid);
+    const std::string who = rs.alias + ":=='" + rs.definition + "' after " + after + " [vs " + how + "]";
+    SH_CHECK(a.status == b.status, "stale-status", who + ": incremental says " + a.status + ", from scratch " + b.status);
+    SH_CHECK(a.type == b.type, "stale-typification", who + ": incremental type " + a.type + ", from scratch " + b.type);
+    SH_CHECK(a.args == b.args, "stale-arguments", who + ": incremental args " + a.args + ", from scratch " + b.args);
+    SH_CHECK(a.vclass == b.vclass, "stale-value-class", who + ": incremental value class " + a.vclass + ", from scratch " + b.vclass);
+    SH_CHECK(a.tree == b.tree, "stale-tree", who + ": incremental tree " + a.tree + ", from scratch " + b.tree);
+    SH_CHECK(a.inputs == b.inputs, "stale-dependencies", who + ": incremental inputs {" + a.inputs + "}, from scratch {" + b.inputs + "}");
+    SH_CHECK(a.termInputs == b.termInputs, "stale-term-dependencies", who + ": term references {" + a.termInputs + "}, from scratch {" + b.termInputs + "}");
+    SH_CHECK(a.defInputs == b.defInputs, "stale-text-dependencies", who + ": text-definition references {" + a.defInputs + "}, from scratch {" + b.defInputs + "}");
+    if (textsComparable) {
+      SH_CHECK(a.term == b.term, "stale-term", who + ": resolved term '" + a.term + "', from scratch '" + b.term + "'");
+      SH_CHECK(a.text == b.text, "stale-text", who + ": resolved definition text '" + a.text + "', from scratch '" + b.text + "'");
+    }
+  }
+  return pbt::pass();
+}
+
+
+// a schema rebuilt from scratch from the records of `inc` in list order
+inline RSForm rebuilt(const RSForm& inc) { RSForm fresh; for (auto uid : inc.List()) fresh.Load(inc.Core().AsRecord(uid)); fresh.UpdateState(); return fresh; }
 
 }  // namespace sh
